@@ -25,12 +25,12 @@ Up(f) == CASE f = "a" -> "A" [] f = "b" -> "B" [] f = "c" -> "C" [] f = "z" -> "
 \* every document (in a shared package the same-named definitions would be renamed by order of arrival)
 OwnPkgs == Mapping \in {"own", "samebase"}
 \* mapping "own" also names the root type of every id (--schema-root-type): Root<F> instead of <F>Json
-RootName(f) == IF Mapping = "own" THEN "Root" \o Up(f) ELSE Up(f) \o "Json"
+RootName(f) == IF Mapping = "own" \/ (Mapping = "rootonly" /\ f = "b") THEN "Root" \o Up(f) ELSE Up(f) \o "Json"
 TypesDef == [f \in FilesDef |-> {RootName(f), Up(f) \o "Def"} \cup (IF OwnPkgs THEN {RootName(f) \o "Mix"} ELSE {})]
 CommonDef == IF OwnPkgs THEN {"Base"} ELSE {}
 \* mapping modes: default (everything to one file / package), own (each id its own), sharedsame (a and b share a
 \* file and package), shareddiff (a and b share a file under different packages: must fail), pkgonly (b has a
-\* package mapping but no output mapping)
+\* package mapping but no output mapping), rootonly (b has a root type mapping only); the last two run through main.go
 OutDef == [f \in FilesDef |->
   CASE Mapping = "default"    -> "all/all.go"
     [] Mapping = "own"        -> "p" \o f \o "/" \o f \o ".go"
@@ -38,14 +38,19 @@ OutDef == [f \in FilesDef |->
     [] Mapping = "samebase"   -> "p" \o f \o "/model/" \o f \o ".go"
     [] Mapping = "sharedsame" -> IF f \in {"a", "b"} THEN "pab/ab.go" ELSE "p" \o f \o "/" \o f \o ".go"
     [] Mapping = "shareddiff" -> IF f \in {"a", "b"} THEN "pab/ab.go" ELSE "p" \o f \o "/" \o f \o ".go"
-    [] Mapping = "pkgonly"    -> IF f = "b" THEN (IF "PackageWithoutOutputLost" \in Devs THEN "" ELSE "all/all.go") ELSE "all/all.go"]
+    \* an id named by ONE per-schema flag only: what is not named falls back to the default output / package
+    \* (before fix 0c5462d the output name stayed empty and the schema's code was written nowhere)
+    [] Mapping \in {"pkgonly", "rootonly"} -> IF f = "b" /\ "PackageWithoutOutputLost" \in Devs THEN "" ELSE "all/all.go"]
 PkgDef == [f \in FilesDef |->
   CASE Mapping = "default"    -> "all"
     [] Mapping = "own"        -> "p" \o f
     [] Mapping = "samebase"   -> "model"
     [] Mapping = "sharedsame" -> IF f \in {"a", "b"} THEN "pab" ELSE "p" \o f
     [] Mapping = "shareddiff" -> IF f = "a" THEN "pab" ELSE IF f = "b" THEN "pother" ELSE "p" \o f
-    [] Mapping = "pkgonly"    -> IF f = "b" THEN (IF "PackageWithoutOutputLost" \in Devs THEN "pb" ELSE "all") ELSE "all"]
+    \* pkgonly: b asks for package pb in the default output, which everything else uses under package all: a run that
+    \* emits b next to another schema must fail (one file, two packages), a run of b alone yields package pb
+    [] Mapping = "pkgonly"    -> IF f = "b" THEN "pb" ELSE "all"
+    [] Mapping = "rootonly"   -> "all"]
 
 Seqs(S) == UNION {{s \in [1..n -> S] : \A i, j \in 1..n : i # j => s[i] # s[j]} : n \in 1..Cardinality(S)}
 OrdersDef == IF Tier = "quick" THEN {s \in Seqs(FilesDef) : Len(s) <= 2 \/ (Len(s) = 3 /\ "z" \notin {s[i] : i \in DOMAIN s})}
